@@ -90,6 +90,21 @@ PROPS = {
              "the suffix must agree exactly (min/max/arg/rank) or within the sum of the DESIGN 5.1 bounds of both runs. distinct = "
              "(kind, function, backend, lengths, window, min_periods)",
     ),
+    "C07": dict(
+        bin="c07", features=["polars"],
+        quick=[("dbg", 1.0), ("miri", 0.5)],
+        thorough=[("dbg", 1.0), ("rel", 1.0), ("miri", 1.0), ("asan", 1.0)],
+        floors={"cells_equal": 10000, "map_cells_equal": 1000, "accessors.deque": 20, "accessors.arrayview1(step-1)": 5,
+                "accessors.arrayview1(step3)": 5, "deque_wrapped": 10, "try_as_slice_offered": 10, "spyout.buffers_verified": 100},
+        technique="runtime monitoring: differential matrix monitor (every cell vs the Vec->Vec reference cell, bit for bit) + accessor coherence checks; Miri/ASan on the non-polars cells",
+        rule="matrix input backend (Vec, [T;N], VecDeque any rotation, Array1, ArrayView1 steps {1,2,3,-1,-2}, ArrayViewMut1, Arc<Vec>, "
+             "Arc<Array1>, Vec<Option>, OptIter(Vec|Array1), SpyVec, SpyVecFast, polars 1-3 chunks) x output container (Vec, VecDeque, "
+             "Array1, SpyOut, Vec<Option<f64>>, polars) x {returned, caller buffer} x 41 rolling entry points, plus vdiff / vpct_change / "
+             "vrank / vpartition / varg_partition / vquantile / winsorize and 10 aggregations through titer() on every backend; reference "
+             "cell Vec->Vec returned; equality bit for bit after decoding the null encoding. Accessor coherence: len, get(i) i<len+2, "
+             "uget, titer, titer().rev(), slice(a,b) for all a<=b<=len, try_as_slice when offered. distinct = (function, cell, path, "
+             "len, window, min_periods) with a non-null output / (accessor suite, backend, len)",
+    ),
 }
 
 for _k in list(PROPS):
